@@ -68,7 +68,7 @@ func probing(line string, b Behav) string {
 	switch b.Form {
 	case "A":
 		return "A"
-	case "D":
+	case "D", "E":
 		return "D"
 	case "B":
 		if b.Off >= len(line) && strings.TrimSpace(b.Out) == "" {
@@ -161,6 +161,7 @@ func run(ctx *Ctx) *Result {
 			cases = append(cases, genSplits("r", 11, true, splitForms[:3], 12)...)
 		}
 		cases = append(cases, genLate(150)...)
+		cases = append(cases, genAfterLine()...)
 		// banners on the echo of the OTHER commands sent while the reload is scheduled
 		if ctx.Thorough() {
 			cases = append(cases, genFixed(1)...)
